@@ -9,6 +9,7 @@ import (
 	"fmt"
 	"go/ast"
 	"go/token"
+	"os"
 	"sort"
 	"strconv"
 	"strings"
@@ -22,6 +23,7 @@ import (
 	"github.com/gotd/td/crypto"
 	"github.com/gotd/td/mtproto"
 	"github.com/gotd/td/proto"
+	"github.com/gotd/td/transport"
 
 	"verif/harness/hc"
 )
@@ -34,9 +36,212 @@ func main() {
 
 func flat(s string) string { return strings.Join(strings.Fields(s), " ") }
 
+// cmp describes `a OP b` normalised so that the left operand is `left`: ok=false if the
+// expression is not a comparison between exactly `left` and `right`.
+func cmp(f *hc.Facts, e ast.Expr, left, right string) (op string, ok bool) {
+	for {
+		p, isP := e.(*ast.ParenExpr)
+		if !isP {
+			break
+		}
+		e = p.X
+	}
+	be, isB := e.(*ast.BinaryExpr)
+	if !isB {
+		return "", false
+	}
+	x, y := flat(f.Src(be.X)), flat(f.Src(be.Y))
+	flip := map[token.Token]string{token.LSS: ">", token.LEQ: ">=", token.GTR: "<", token.GEQ: "<=", token.EQL: "==", token.NEQ: "!="}
+	same := map[token.Token]string{token.LSS: "<", token.LEQ: "<=", token.GTR: ">", token.GEQ: ">=", token.EQL: "==", token.NEQ: "!="}
+	switch {
+	case x == left && y == right:
+		op, ok = same[be.Op]
+	case x == right && y == left:
+		op, ok = flip[be.Op]
+	}
+	return op, ok && op != ""
+}
+
+func returnsFalse(f *hc.Facts, body []ast.Stmt) bool {
+	return len(body) == 1 && flat(f.Src(body[0])) == "return false"
+}
+
+// consumeShape reads the structure of proto.MessageIDBuf.Consume that the model interprets:
+//   - how the running minimum is initialised (first slot / zero values),
+//   - the tests inside the scan loop, in order: 0 = "equal to newID → return false",
+//     1 = "slot < minimum → remember slot" (2 with <=), 9 = anything else; and whether they are
+//     independent ifs or the cases of one switch (first match wins),
+//   - the final "lower than all stored" test (< or <=), the write-back into the minimum slot,
+//   - the lock scope.
+func consumeShape(f *hc.Facts) {
+	fd := f.FuncDecl("proto", "MessageIDBuf.Consume")
+	bad := func(why string) {
+		for _, n := range []string{"consumeInitFirst", "consumeExclusive", "consumeItems", "consumeTailStrict", "consumeWritesMinSlot", "consumeLocked"} {
+			f.Missing(n, "proto.MessageIDBuf.Consume: "+why)
+		}
+	}
+	if fd == nil || fd.Body == nil || fd.Type.Params == nil || len(fd.Type.Params.List) != 1 || len(fd.Type.Params.List[0].Names) != 1 {
+		bad("not found")
+		return
+	}
+	newID := fd.Type.Params.List[0].Names[0].Name
+	var loop *ast.RangeStmt
+	loopAt := -1
+	for i, st := range fd.Body.List {
+		if rs, ok := st.(*ast.RangeStmt); ok && flat(f.Src(rs.X)) == "b.buf" {
+			loop, loopAt = rs, i
+			break
+		}
+	}
+	if loop == nil || loop.Key == nil || loop.Value == nil {
+		bad("no `for i, id := range b.buf` loop")
+		return
+	}
+	idx, val := f.Src(loop.Key), f.Src(loop.Value)
+	// classify the tests of the loop body
+	type test struct {
+		cond ast.Expr
+		body []ast.Stmt
+	}
+	var tests []test
+	exclusive := false
+	for _, st := range loop.Body.List {
+		switch x := st.(type) {
+		case *ast.IfStmt:
+			if x.Else != nil || x.Init != nil {
+				tests = append(tests, test{nil, nil})
+				continue
+			}
+			tests = append(tests, test{x.Cond, x.Body.List})
+		case *ast.SwitchStmt:
+			if x.Tag != nil || x.Init != nil || len(loop.Body.List) != 1 {
+				tests = append(tests, test{nil, nil})
+				continue
+			}
+			exclusive = true
+			for _, cc := range x.Body.List {
+				c := cc.(*ast.CaseClause)
+				if len(c.List) != 1 {
+					tests = append(tests, test{nil, nil})
+					continue
+				}
+				tests = append(tests, test{c.List[0], c.Body})
+			}
+		default:
+			tests = append(tests, test{nil, nil})
+		}
+	}
+	minVar, minIdxVar := "", ""
+	var items []string
+	for _, t := range tests {
+		kind := "9"
+		if t.cond != nil {
+			if op, ok := cmp(f, t.cond, val, newID); ok && op == "==" && returnsFalse(f, t.body) {
+				kind = "0"
+			} else if be, ok := t.cond.(*ast.BinaryExpr); ok {
+				// slot compared with some variable M; body assigns idxVar = i and M = id
+				other := flat(f.Src(be.Y))
+				if other == val {
+					other = flat(f.Src(be.X))
+				}
+				if op, ok := cmp(f, t.cond, val, other); ok && (op == "<" || op == "<=") && other != newID {
+					assigns := map[string]string{}
+					okBody := true
+					for _, b := range t.body {
+						as, isA := b.(*ast.AssignStmt)
+						if !isA || as.Tok != token.ASSIGN || len(as.Lhs) != len(as.Rhs) {
+							okBody = false
+							break
+						}
+						for k := range as.Lhs {
+							assigns[flat(f.Src(as.Lhs[k]))] = flat(f.Src(as.Rhs[k]))
+						}
+					}
+					if okBody && len(assigns) == 2 && assigns[other] == val {
+						for k, v := range assigns {
+							if k != other && v == idx {
+								minVar, minIdxVar = other, k
+								kind = map[string]string{"<": "1", "<=": "2"}[op]
+							}
+						}
+					}
+				}
+			}
+		}
+		items = append(items, kind)
+	}
+	if minVar == "" {
+		bad("no running-minimum update found in the loop")
+		return
+	}
+	// initialisation before the loop
+	initFirst, initKnown := false, false
+	vals := map[string]string{}
+	for _, st := range fd.Body.List[:loopAt] {
+		switch x := st.(type) {
+		case *ast.AssignStmt:
+			if len(x.Lhs) == len(x.Rhs) {
+				for k := range x.Lhs {
+					vals[flat(f.Src(x.Lhs[k]))] = flat(f.Src(x.Rhs[k]))
+				}
+			}
+		case *ast.DeclStmt:
+			if gd, ok := x.Decl.(*ast.GenDecl); ok && gd.Tok == token.VAR {
+				for _, sp := range gd.Specs {
+					vs := sp.(*ast.ValueSpec)
+					for k, n := range vs.Names {
+						if k < len(vs.Values) {
+							vals[n.Name] = flat(f.Src(vs.Values[k]))
+						} else {
+							vals[n.Name] = "0"
+						}
+					}
+				}
+			}
+		}
+	}
+	switch {
+	case vals[minVar] == "b.buf[0]" && vals[minIdxVar] == "0":
+		initFirst, initKnown = true, true
+	case vals[minVar] == "0" && vals[minIdxVar] == "0":
+		initFirst, initKnown = false, true
+	}
+	if !initKnown {
+		bad("initialisation of " + minVar + "/" + minIdxVar + " not recognised")
+		return
+	}
+	// after the loop: the lower-than-all test, the write-back, return true
+	tail := fd.Body.List[loopAt+1:]
+	tailOp, writes, retTrue := "", false, false
+	for _, st := range tail {
+		switch x := st.(type) {
+		case *ast.IfStmt:
+			if op, ok := cmp(f, x.Cond, newID, minVar); ok && x.Else == nil && returnsFalse(f, x.Body.List) && (op == "<" || op == "<=") && !writes {
+				tailOp = op
+			} else {
+				tailOp = "?"
+			}
+		case *ast.AssignStmt:
+			if flat(f.Src(x)) == "b.buf["+minIdxVar+"] = "+newID {
+				writes = true
+			}
+		case *ast.ReturnStmt:
+			retTrue = flat(f.Src(x)) == "return true" && writes
+		}
+	}
+	if tailOp != "<" && tailOp != "<=" {
+		bad("final `newID < minimum` test not recognised")
+		return
+	}
+	f.Bool("consumeInitFirst", initFirst, "the running minimum starts from (0, b.buf[0]) (false: from zero values)")
+	f.Bool("consumeExclusive", exclusive, "the loop's tests are cases of one switch (first match wins) rather than independent ifs")
+	f.Raw("def consumeItems : List Nat := [" + strings.Join(items, ", ") + "] -- loop tests in order: 0 equal→return false, 1 slot<min→remember, 2 slot<=min→remember, 9 other")
+	f.Bool("consumeTailStrict", tailOp == "<", "after the loop: `if newID < min { return false }` (false: <=)")
+	f.Bool("consumeWritesMinSlot", writes && retTrue, "then b.buf[minIdx] = newID; return true")
+	f.Bool("consumeLocked", f.LockCovers(fd, "b.mux", "b.buf"), "every use of b.buf is inside the b.mux critical section")
+}
+
 func facts(f *hc.Facts) {
-	f.Const("maxPast", "mtproto", "maxPast")
-	f.Const("maxFuture", "mtproto", "maxFuture")
 	f.Const("messageIDModulo", "proto", "messageIDModulo")
 	f.Const("yieldServerResponse", "proto", "yieldServerResponse")
 	f.Const("yieldFromServer", "proto", "yieldFromServer")
@@ -84,62 +289,184 @@ func facts(f *hc.Facts) {
 		f.Missing("maxPadding", "const maxPadding not found in crypto.Cipher.Decrypt")
 	}
 
-	// MessageIDBuf.Consume: where the minimum search starts, loop body, tail
-	if fd := f.FuncDecl("proto", "MessageIDBuf.Consume"); fd != nil && fd.Body != nil {
-		var parts []string
-		for _, st := range fd.Body.List {
-			parts = append(parts, flat(f.Src(st)))
-		}
-		f.Str("consumeBody", strings.Join(parts, " ; "), "statements of proto.MessageIDBuf.Consume")
-	} else {
-		f.Missing("consumeBody", "proto.MessageIDBuf.Consume not found")
-	}
+	consumeShape(f)
+	checkMessageIDShape(f)
+	decryptMessageShape(f)
+}
 
-	// Conn.decryptMessage: the order decrypt → session → checkMessageID → Consume
-	if fd := f.FuncDecl("mtproto", "Conn.decryptMessage"); fd != nil && fd.Body != nil {
-		var conds []string
-		for _, st := range fd.Body.List {
-			switch x := st.(type) {
-			case *ast.AssignStmt:
-				conds = append(conds, flat(f.Src(x)))
-			case *ast.IfStmt:
-				s := flat(f.Src(x.Cond))
-				if x.Init != nil {
-					s = flat(f.Src(x.Init)) + "; " + s
+// checkMessageIDShape: which id types pass, and the two time comparisons with their operator and
+// bound (the model interprets them).
+func checkMessageIDShape(f *hc.Facts) {
+	fd := f.FuncDecl("mtproto", "checkMessageID")
+	names := []string{"acceptedYields", "pastGuarded", "pastStrict", "pastLimitNs", "futureStrict", "futureLimitNs"}
+	bad := func(why string) {
+		for _, n := range names {
+			f.Missing(n, "mtproto.checkMessageID: "+why)
+		}
+	}
+	if fd == nil || fd.Body == nil {
+		bad("not found")
+		return
+	}
+	// yield → type table of proto.MessageID.Type
+	yieldOfType := map[string]string{}
+	if tf := f.FuncDecl("proto", "MessageID.Type"); tf != nil {
+		ast.Inspect(tf.Body, func(n ast.Node) bool {
+			cc, ok := n.(*ast.CaseClause)
+			if !ok || len(cc.List) != 1 || len(cc.Body) != 1 {
+				return true
+			}
+			if rs, ok := cc.Body[0].(*ast.ReturnStmt); ok && len(rs.Results) == 1 {
+				if v, ok := f.ConstInt("proto", f.Src(cc.List[0])); ok {
+					yieldOfType[f.Src(rs.Results[0])] = v
 				}
-				conds = append(conds, "if "+s)
-			case *ast.ReturnStmt:
-				conds = append(conds, flat(f.Src(x)))
+			}
+			return true
+		})
+	}
+	var yields []string
+	typesOK := false
+	var past, future *ast.IfStmt
+	for _, st := range fd.Body.List {
+		switch x := st.(type) {
+		case *ast.SwitchStmt:
+			if flat(f.Src(x.Tag)) != "id.Type()" {
+				continue
+			}
+			def := false
+			for _, c := range x.Body.List {
+				cc := c.(*ast.CaseClause)
+				if cc.List == nil { // default must reject
+					def = len(cc.Body) == 1 && strings.HasPrefix(flat(f.Src(cc.Body[0])), "return errors.Wrapf(errRejected")
+					continue
+				}
+				if len(cc.Body) != 0 {
+					def = false
+					break
+				}
+				for _, e := range cc.List {
+					y, ok := yieldOfType[strings.TrimPrefix(f.Src(e), "proto.")]
+					if !ok {
+						bad("unknown type " + f.Src(e))
+						return
+					}
+					yields = append(yields, y)
+				}
+			}
+			typesOK = def
+		case *ast.IfStmt:
+			s := f.Src(x.Cond)
+			rejects := len(x.Body.List) == 1 && strings.HasPrefix(flat(f.Src(x.Body.List[0])), "return errors.Wrap(errRejected")
+			if !rejects {
+				continue
+			}
+			if strings.Contains(s, "maxPast") {
+				past = x
+			} else if strings.Contains(s, "maxFuture") {
+				future = x
 			}
 		}
-		f.Str("decryptMessageSteps", strings.Join(conds, " | "), "top-level steps of Conn.decryptMessage")
-	} else {
-		f.Missing("decryptMessageSteps", "Conn.decryptMessage not found")
 	}
+	if !typesOK || past == nil || future == nil {
+		bad("type switch / time tests not recognised")
+		return
+	}
+	sort.Strings(yields)
+	// past: [created.Before(now) &&] now.Sub(created) OP maxPast
+	guarded := false
+	pc := past.Cond
+	if be, ok := pc.(*ast.BinaryExpr); ok && be.Op == token.LAND {
+		if flat(f.Src(be.X)) == "created.Before(now)" {
+			guarded, pc = true, be.Y
+		} else if flat(f.Src(be.Y)) == "created.Before(now)" {
+			guarded, pc = true, be.X
+		}
+	}
+	pop, ok1 := cmp(f, pc, "now.Sub(created)", "maxPast")
+	fop, ok2 := cmp(f, future.Cond, "created.Sub(now)", "maxFuture")
+	pl, ok3 := f.ConstInt("mtproto", "maxPast")
+	fl, ok4 := f.ConstInt("mtproto", "maxFuture")
+	if !ok1 || !ok2 || !ok3 || !ok4 || (pop != ">" && pop != ">=") || (fop != ">" && fop != ">=") {
+		bad("time comparison not recognised")
+		return
+	}
+	f.Raw("def acceptedYields : List Int := [" + strings.Join(yields, ", ") + "] -- id % 4 values whose MessageID.Type() passes the switch of checkMessageID")
+	f.Bool("pastGuarded", guarded, "the past test is guarded by created.Before(now)")
+	f.Bool("pastStrict", pop == ">", "rejected if now.Sub(created) > maxPast (false: >=)")
+	f.Raw("def pastLimitNs : Int := " + pl + " -- mtproto.maxPast")
+	f.Bool("futureStrict", fop == ">", "rejected if created.Sub(now) > maxFuture (false: >=)")
+	f.Raw("def futureLimitNs : Int := " + fl + " -- mtproto.maxFuture")
+}
 
-	// Conn.consumeMessage: a rejected message returns before handleMessage
-	if fd := f.FuncDecl("mtproto", "Conn.consumeMessage"); fd != nil && fd.Body != nil && len(fd.Body.List) >= 4 {
-		var head []string
-		for _, st := range fd.Body.List[:4] {
+// decryptMessageShape: the order of the checks of Conn.decryptMessage (0 decrypt, 1 session id,
+// 2 message id, 3 replay buffer, 9 other) and how consumeMessage treats the outcome.
+func decryptMessageShape(f *hc.Facts) {
+	fd := f.FuncDecl("mtproto", "Conn.decryptMessage")
+	if fd == nil || fd.Body == nil {
+		f.Missing("decryptOrder", "Conn.decryptMessage not found")
+	} else {
+		var order []string
+		rejectsAll := true
+		for _, st := range fd.Body.List {
 			switch x := st.(type) {
 			case *ast.AssignStmt:
-				head = append(head, flat(f.Src(x)))
+				if strings.Contains(f.Src(x), "c.cipher.DecryptFromBuffer(session.Key, b)") {
+					order = append(order, "0")
+				}
 			case *ast.IfStmt:
-				s := flat(f.Src(x.Cond))
+				src := flat(f.Src(x.Cond))
 				if x.Init != nil {
-					s = flat(f.Src(x.Init)) + "; " + s
+					src = flat(f.Src(x.Init)) + "; " + src
 				}
 				last := ""
 				if n := len(x.Body.List); n > 0 {
 					last = flat(f.Src(x.Body.List[n-1]))
 				}
-				head = append(head, "if "+s+" { … "+last+" }")
+				switch {
+				case src == "err != nil" && len(order) > 0 && order[len(order)-1] == "0":
+					// the error test belonging to the decryption
+				case src == "msg.SessionID != session.ID":
+					order = append(order, "1")
+					rejectsAll = rejectsAll && strings.HasPrefix(last, "return nil, errors.Wrapf(errRejected")
+				case src == "err := checkMessageID(c.clock.Now(), msg.MessageID); err != nil":
+					order = append(order, "2")
+					rejectsAll = rejectsAll && strings.HasPrefix(last, "return nil, errors.Wrapf(err,")
+				case src == "!c.messageIDBuf.Consume(msg.MessageID)":
+					order = append(order, "3")
+					rejectsAll = rejectsAll && strings.HasPrefix(last, "return nil, errors.Wrapf(errRejected")
+				default:
+					order = append(order, "9")
+				}
 			}
 		}
-		f.Str("consumeMessageHead", strings.Join(head, " | "), "first statements of Conn.consumeMessage")
-	} else {
-		f.Missing("consumeMessageHead", "Conn.consumeMessage not found")
+		f.Raw("def decryptOrder : List Nat := [" + strings.Join(order, ", ") + "] -- checks of Conn.decryptMessage in order: 0 decrypt, 1 session id, 2 message id, 3 replay buffer, 9 other")
+		f.Bool("decryptChecksReject", rejectsAll, "each failing check returns (nil, an error wrapping errRejected)")
 	}
+	// consumeMessage: rejected → return nil before handleMessage; other errors → returned
+	cm := f.FuncDecl("mtproto", "Conn.consumeMessage")
+	early, fatal, handleAfter := false, false, false
+	if cm != nil && cm.Body != nil {
+		stage := 0
+		for _, st := range cm.Body.List {
+			src := flat(f.Src(st))
+			switch {
+			case stage == 0 && strings.HasPrefix(src, "msg, err := c.decryptMessage(buf)"):
+				stage = 1
+			case stage >= 1 && strings.HasPrefix(src, "if errors.Is(err, errRejected) {"):
+				if is := st.(*ast.IfStmt); len(is.Body.List) > 0 && flat(f.Src(is.Body.List[len(is.Body.List)-1])) == "return nil" {
+					early = true
+				}
+			case stage >= 1 && strings.HasPrefix(src, "if err != nil {"):
+				if is := st.(*ast.IfStmt); len(is.Body.List) > 0 && strings.HasPrefix(flat(f.Src(is.Body.List[len(is.Body.List)-1])), "return errors.Wrap(err") {
+					fatal = true
+				}
+			case strings.Contains(src, "c.handleMessage(msg.MessageID"):
+				handleAfter = early && fatal
+			}
+		}
+	}
+	f.Bool("rejectedReturnsBeforeHandle", early && handleAfter, "consumeMessage: a rejected message returns nil before handleMessage")
+	f.Bool("otherErrorsAreFatal", fatal, "consumeMessage: any other decrypt error is returned (the read loop halts)")
 }
 
 // ---------------------------------------------------------------------------------- (i) replay buffer
@@ -566,6 +893,240 @@ func genFrames(r *hc.RNG, session int64, n int, count int) ([]frame, map[string]
 	return frames, dist
 }
 
+// ---------------------------------------------------------------------------------- (iv) the read loop, through Run
+
+// loopTransport feeds server frames to Conn.readLoop and swallows what the client writes (only
+// the session id of the first written frame is needed).
+type loopTransport struct {
+	key     crypto.AuthKey
+	dec     crypto.Cipher
+	in      chan []byte
+	session chan int64
+	once    sync.Once
+}
+
+func (t *loopTransport) Send(ctx context.Context, b *bin.Buffer) error {
+	t.once.Do(func() {
+		cp := &bin.Buffer{Buf: append([]byte{}, b.Buf...)}
+		if d, err := t.dec.DecryptFromBuffer(t.key, cp); err == nil {
+			t.session <- d.SessionID
+		} else {
+			t.session <- 0
+		}
+	})
+	return nil
+}
+
+func (t *loopTransport) Recv(ctx context.Context, b *bin.Buffer) error {
+	select {
+	case f := <-t.in:
+		b.ResetTo(f)
+		return nil
+	case <-ctx.Done():
+		return ctx.Err()
+	}
+}
+func (t *loopTransport) Close() error { return nil }
+
+var _ transport.Conn = (*loopTransport)(nil)
+
+// watchdog is generous and grows with the machine's load: nothing here is a timing assertion.
+func watchdog() time.Duration {
+	d := 90 * time.Second
+	if b, err := os.ReadFile("/proc/loadavg"); err == nil {
+		if f := strings.Fields(string(b)); len(f) > 0 {
+			if l, err := strconv.ParseFloat(f[0], 64); err == nil && l > 32 {
+				d += time.Duration(l/32) * 60 * time.Second
+			}
+		}
+	}
+	return d
+}
+
+type loopFrame struct {
+	f     frame
+	bad      string // "" = must be handled (once per id); otherwise why it must be dropped
+	fatal    bool   // does not decrypt: consumeMessage returns an error, the read loop halts
+	optional bool   // valid, but sent after the fatal frame: may or may not be handled before the loop halts
+}
+
+type loopOutcome struct {
+	input    string
+	handled  map[uint32]int // frame number → handler calls
+	runEnded bool
+	runErr   error
+	herr     error
+}
+
+// runReadLoop starts a connection with the public New/Run, delivers `frames` as fast as the read
+// loop takes them (each is handled in its own goroutine), and reports which reached the handler.
+// If `endsFatal`, the last frame is undecryptable and Run must end with an error.
+func runReadLoop(seed uint64, kind string) (out loopOutcome, frames []loopFrame) {
+	r := hc.NewRNG(seed)
+	key, other := randKey(r), randKey(r)
+	tr := &loopTransport{key: key, dec: crypto.NewServerCipher(r.Fork()), in: make(chan []byte, 1024), session: make(chan int64, 1)}
+	rec := &recorder{}
+	conn := mtproto.New(func(ctx context.Context) (transport.Conn, error) { return tr, nil }, mtproto.Options{
+		Random: r.Fork(), Key: key, Cipher: crypto.NewClientCipher(r.Fork()), CompressThreshold: -1, Handler: rec,
+		PingInterval: 10 * time.Millisecond, PingTimeout: 10 * time.Minute, AckInterval: 5 * time.Millisecond,
+	})
+	ctx, cancel := context.WithCancel(context.Background())
+	defer cancel()
+	runDone := make(chan error, 1)
+	go func() {
+		runDone <- conn.Run(ctx, func(ctx context.Context) error { <-ctx.Done(); return ctx.Err() })
+	}()
+	var session int64
+	select {
+	case session = <-tr.session:
+	case err := <-runDone:
+		out.herr = fmt.Errorf("Run ended before the first frame was written: %v", err)
+		return
+	case <-time.After(watchdog()):
+		out.herr = fmt.Errorf("no frame written within the watchdog")
+		return
+	}
+	// build the frames: ids relative to the real clock, well inside the window
+	now := time.Now().UnixNano()
+	nextID := func(k int) int64 { return idAt(now+int64(k)*1000)&^3 | hc.Pick(r, int64(1), int64(3)) }
+	count := r.Range(5, 60)
+	if kind == "burst" {
+		count = r.Range(40, 90)
+	}
+	var valid []int64
+	for k := 0; k < count; k++ {
+		f := frame{now: now, session: session, seqNo: int32(r.Intn(1<<20)) * 2, msgID: nextID(k)}
+		f.dataLen, f.padding = 4*r.Range(2, 10), 0
+		f.padding = (16 - (f.dataLen % 16)) % 16
+		if f.padding < 12 {
+			f.padding += 16
+		}
+		lf := loopFrame{f: f}
+		switch c := r.Intn(20); {
+		case c < 3 && len(valid) > 0: // replay of an earlier valid id (maybe concurrently with it)
+			lf.f.msgID = valid[r.Intn(len(valid))]
+			lf.bad = "replay-candidate"
+		case c == 3:
+			lf.f.session = hc.Pick(r, session+1, 0, ^session)
+			lf.bad = "wrong-session"
+		case c == 4:
+			lf.f.msgID = idAt(now-int64(r.Range(301, 900))*sec)&^3 | 1
+			lf.bad = "too-old"
+		case c == 5:
+			lf.f.msgID = idAt(now+int64(r.Range(200, 900))*sec)&^3 | 3
+			lf.bad = "too-new"
+		case c == 6:
+			lf.f.msgID = nextID(k)&^3 | hc.Pick(r, int64(0), int64(2))
+			lf.bad = "bad-type"
+		default:
+			valid = append(valid, lf.f.msgID)
+		}
+		frames = append(frames, lf)
+	}
+	if kind == "fatal" {
+		f := frame{now: now, session: session, seqNo: 2, msgID: nextID(count + 1), dataLen: 16, padding: 16}
+		f.keyKind = hc.Pick(r, 1, 2, 3, 4)
+		if r.Chance(25) {
+			f.keyKind, f.padding = 0, 0 // decrypts, but no padding: rejected by the cipher
+		}
+		frames = append(frames, loopFrame{f: f, bad: "undecryptable", fatal: true})
+		// the loop looks at the recorded error only before its next Recv: one more frame lets it notice
+		t := frame{now: now, session: session, seqNo: 2, msgID: nextID(count + 2), dataLen: 16, padding: 16}
+		frames = append(frames, loopFrame{f: t, optional: true})
+	}
+	var lb strings.Builder
+	fmt.Fprintf(&lb, "readloop kind=%s session=%d", kind, session)
+	for _, lf := range frames {
+		lb.WriteString(" " + lf.f.String())
+		if lf.bad != "" {
+			lb.WriteString("!" + lf.bad)
+		}
+	}
+	out.input = lb.String()
+	for i, lf := range frames {
+		tr.in <- lf.f.encode(r, key, other, uint32(i+1))
+	}
+	// wait until every frame that must be handled has been handled (or Run ended)
+	out.handled = map[uint32]int{}
+	want := map[int64]bool{}
+	for _, v := range valid {
+		want[v] = true
+	}
+	handledIDs := map[int64]int{}
+	deadline := time.Now().Add(watchdog())
+	collect := func() {
+		for _, c := range rec.take() {
+			out.handled[c]++
+			if c >= 1 && int(c) <= len(frames) {
+				handledIDs[frames[c-1].f.msgID]++
+			}
+		}
+	}
+	for time.Now().Before(deadline) {
+		collect()
+		missing := 0
+		for id := range want {
+			if handledIDs[id] == 0 {
+				missing++
+			}
+		}
+		if missing == 0 {
+			break
+		}
+		select {
+		case out.runErr = <-runDone:
+			out.runEnded = true
+			collect()
+			deadline = time.Now()
+		case <-time.After(2 * time.Millisecond):
+		}
+	}
+	if kind == "fatal" && !out.runEnded {
+		// keep traffic flowing (as pongs and updates would): the loop notices the error before a Recv
+		fd := time.Now().Add(watchdog())
+		for k := 0; time.Now().Before(fd) && !out.runEnded; k++ {
+			t := frame{now: now, session: session, seqNo: 2, msgID: nextID(count + 10 + k), dataLen: 16, padding: 16}
+			frames = append(frames, loopFrame{f: t, optional: true})
+			select {
+			case tr.in <- t.encode(r, key, other, uint32(len(frames))):
+			default:
+			}
+			select {
+			case out.runErr = <-runDone:
+				out.runEnded = true
+			case <-time.After(3 * time.Millisecond):
+			}
+		}
+	}
+	time.Sleep(20 * time.Millisecond) // late handler calls of frames that must be dropped would show up here
+	collect()
+	if !out.runEnded {
+		// the connection must still be alive: one more valid frame gets through
+		probe := frame{now: now, session: session, seqNo: 2, msgID: nextID(count + 5), dataLen: 16, padding: 16}
+		frames = append(frames, loopFrame{f: probe})
+		tr.in <- probe.encode(r, key, other, uint32(len(frames)))
+		pd := time.Now().Add(watchdog())
+		for time.Now().Before(pd) && out.handled[uint32(len(frames))] == 0 {
+			select {
+			case out.runErr = <-runDone:
+				out.runEnded = true
+				pd = time.Now()
+			case <-time.After(2 * time.Millisecond):
+			}
+			collect()
+		}
+		cancel()
+		if !out.runEnded {
+			select {
+			case <-runDone:
+			case <-time.After(watchdog()):
+				out.herr = fmt.Errorf("Run did not return after cancellation")
+			}
+		}
+	}
+	return
+}
+
 // ---------------------------------------------------------------------------------- run
 
 func run(c *hc.Ctx) error {
@@ -740,6 +1301,77 @@ func run(c *hc.Ctx) error {
 		_ = probe // the short-padding probe is compared too since crypto repaired D2 (11c870b0c)
 	}
 
+	// ---- (iv) the read loop: whole connections (public New/Run), frames handled concurrently
+	nLoop := c.N(12, 120)
+	type lres struct {
+		out    loopOutcome
+		frames []loopFrame
+		kind   string
+	}
+	lr := make([]lres, nLoop)
+	var lwg sync.WaitGroup
+	lsem := make(chan struct{}, 6)
+	for i := 0; i < nLoop; i++ {
+		kind := hc.Pick(r, "mixed", "mixed", "burst", "fatal", "fatal")
+		seed := r.U64()
+		lwg.Add(1)
+		go func(i int) {
+			defer lwg.Done()
+			lsem <- struct{}{}
+			defer func() { <-lsem }()
+			o, fr := runReadLoop(seed, kind)
+			lr[i] = lres{o, fr, kind}
+		}(i)
+	}
+	lwg.Wait()
+	for _, x := range lr {
+		if x.out.herr != nil {
+			return x.out.herr
+		}
+		c.Eval(x.out.input, true)
+		c.Count("readloop." + x.kind)
+		perID := map[int64]int{}
+		for num, n := range x.out.handled {
+			if num < 1 || int(num) > len(x.frames) {
+				c.Fail("readloop-unknown-message-handled", x.out.input, fmt.Sprintf("handler saw payload #%d", num))
+				continue
+			}
+			lf := x.frames[num-1]
+			perID[lf.f.msgID] += n
+			if lf.bad != "" && lf.bad != "replay-candidate" {
+				c.Fail("readloop-accepted-"+lf.bad, x.out.input, fmt.Sprintf("frame %d (%s) must be dropped (%s) but reached the handler", num-1, lf.f, lf.bad))
+			}
+		}
+		for id, n := range perID {
+			if n > 1 {
+				c.Fail("readloop-id-handled-twice", x.out.input, fmt.Sprintf("message id %d reached the handler %d times (frames are handled concurrently, the replay buffer must serialise them)", id, n))
+			}
+		}
+		// fewer than N = 100 ids are ever stored, so "lower than all stored" cannot apply: every
+		// valid id must get through exactly once whatever order the goroutines ran in
+		// (theorem fresh_id_accepted_while_not_full)
+		if x.kind != "fatal" || true {
+			for _, lf := range x.frames {
+				if lf.bad == "" && !lf.optional && perID[lf.f.msgID] != 1 && !(x.out.runEnded && x.kind != "fatal") {
+					c.Fail("readloop-valid-dropped", x.out.input, fmt.Sprintf("valid message id %d was handled %d times (Run ended=%v err=%v)", lf.f.msgID, perID[lf.f.msgID], x.out.runEnded, x.out.runErr))
+					break
+				}
+			}
+		}
+		switch x.kind {
+		case "fatal":
+			if !x.out.runEnded || x.out.runErr == nil {
+				c.Fail("readloop-undecryptable-not-fatal", x.out.input, fmt.Sprintf("an undecryptable frame did not end Run with an error (ended=%v err=%v)", x.out.runEnded, x.out.runErr))
+			}
+			c.Count("readloop.run-ended-by-undecryptable-frame")
+		default:
+			if x.out.runEnded {
+				c.Fail("readloop-died-on-rejected-frames", x.out.input, fmt.Sprintf("Run ended (%v) although every frame decrypts; rejected frames must only be dropped", x.out.runErr))
+			}
+			c.Count("readloop.alive-after-rejected-frames")
+		}
+	}
+
 	outs, err := c.Drv.Batch(lines)
 	if err != nil {
 		return err
@@ -754,10 +1386,11 @@ func run(c *hc.Ctx) error {
 			c.Res.TracesValidated++
 		}
 	}
-	c.Res.Rule = "buffer histories: N ∈ {1,2,3,10,100}, 1..400 ids drawn from a universe a few times N (uniform / mostly increasing with replays / decreasing / jittered), non-trivial = contains a duplicate and more than N distinct ids; checkMessageID: ids at ±6 ns of both window boundaries, inside, far, arbitrary bits, negative int32 fraction, all 4 types (all non-trivial); frame sequences through consumeMessage on one connection: fresh/replayed/boundary ids, wrong session, foreign key, flipped msg_key/ciphertext bit, client-side (reflected) encryption, padding 12/1024/>1024, length % 4 ≠ 0, odd/even seq_no, clock moving; non-trivial = at least 2 frames; distinct = distinct input line"
+	c.Res.Rule = "buffer histories: N ∈ {1,2,3,10,100}, 1..400 ids drawn from a universe a few times N (uniform / mostly increasing with replays / decreasing / jittered), non-trivial = contains a duplicate and more than N distinct ids; checkMessageID: ids at ±6 ns of both window boundaries, inside, far, arbitrary bits, negative int32 fraction, all 4 types (all non-trivial); frame sequences through consumeMessage on one connection: fresh/replayed/boundary ids, wrong session, foreign key, flipped msg_key/ciphertext bit, client-side (reflected) encryption, padding 12/1024/>1024, length % 4 ≠ 0, odd/even seq_no, clock moving; non-trivial = at least 2 frames; read loop: whole connections through the public New/Run, 5..90 frames delivered back to back and handled in concurrent goroutines (replays racing with their originals, wrong session, stale/future/client-typed ids; optionally an undecryptable last frame), checked order-independently; distinct = distinct input line"
 	c.PartialNote("the padding bounds 12..1024 and length % 4 are enforced inside crypto.Cipher.Decrypt (C04/C05; the lower bound was defect D2, repaired by /repo 11c870b0c): the C07 model takes them as the cipher's interface, the harness still sends frames with 0/4/8 and >1024 bytes of padding through the real code")
 	c.PartialNote("decryption under the session key is abstracted in the model as a boolean (auth-key id and msg_key match); that a tampered or foreign ciphertext fails that test is C05's cryptographic assumption, exercised here with 4 kinds of bad frames")
-	c.PartialNote("readLoop runs consumeMessage in one goroutine per frame; the harness feeds frames sequentially (MessageIDBuf.Consume is a critical section of its own mutex, so concurrent frames are some sequential order of Consume calls)")
+	c.PartialNote("in the read-loop part frames are handled by concurrent goroutines in an order the Go scheduler chooses; it is checked order-independently (at most once per id, never a frame that must be dropped, every valid id exactly once while fewer than 100 ids are stored, liveness of Run); the sequential frame sequences of part (iii) are compared frame by frame with the model")
+	c.PartialNote("handleAuthKeyNotFound (transport error 404 → key re-creation or PFS reconnect) is not driven; there is no server-time offset in checkMessageID (it takes c.clock.Now() — a regenerated fact)")
 	return nil
 }
 
